@@ -1,0 +1,86 @@
+//! Verification hooks (only compiled with `--cfg stam_verif`): read-only dumps of the reverse
+//! indices and id maps as plain tuples, in stored order, so that stale, duplicated or
+//! out-of-order entries are visible directly.
+
+use crate::annotationstore::AnnotationStore;
+use crate::store::{RelationBTreeMap, RelationMap, TripleRelationMap};
+use crate::types::Handle;
+
+#[derive(Debug, Clone, Default, PartialEq, Eq)]
+pub struct VerifDump {
+    /// (dataset, data, annotation)
+    pub dataset_data_annotation_map: Vec<(usize, usize, usize)>,
+    /// (resource, textselection, annotation)
+    pub textrelationmap: Vec<(usize, usize, usize)>,
+    /// (resource, annotation)
+    pub resource_annotation_metamap: Vec<(usize, usize)>,
+    /// (dataset, annotation)
+    pub dataset_annotation_metamap: Vec<(usize, usize)>,
+    /// (target annotation, annotation)
+    pub annotation_annotation_map: Vec<(usize, usize)>,
+    /// (dataset, key, annotation)
+    pub key_annotation_metamap: Vec<(usize, usize, usize)>,
+    /// (dataset, data, annotation)
+    pub data_annotation_metamap: Vec<(usize, usize, usize)>,
+    pub annotation_idmap: Vec<(String, usize)>,
+    pub resource_idmap: Vec<(String, usize)>,
+    pub dataset_idmap: Vec<(String, usize)>,
+    pub substore_idmap: Vec<(String, usize)>,
+    /// (resource, substore)
+    pub resource_substore_map: Vec<(usize, usize)>,
+    /// (dataset, substore)
+    pub dataset_substore_map: Vec<(usize, usize)>,
+}
+
+fn dump2<A: Handle, B: Handle>(m: &RelationMap<A, B>) -> Vec<(usize, usize)> {
+    let mut out = Vec::new();
+    for (a, v) in m.data.iter().enumerate() {
+        for b in v {
+            out.push((a, b.as_usize()));
+        }
+    }
+    out
+}
+
+fn dump2b<A: Handle, B: Handle>(m: &RelationBTreeMap<A, B>) -> Vec<(usize, usize)> {
+    let mut out = Vec::new();
+    for (a, v) in m.data.iter() {
+        for b in v {
+            out.push((a.as_usize(), b.as_usize()));
+        }
+    }
+    out
+}
+
+fn dump3<A: Handle, B: Handle, C: Handle>(m: &TripleRelationMap<A, B, C>) -> Vec<(usize, usize, usize)> {
+    let mut out = Vec::new();
+    for (a, inner) in m.data.iter().enumerate() {
+        for (b, v) in inner.data.iter().enumerate() {
+            for c in v {
+                out.push((a, b, c.as_usize()));
+            }
+        }
+    }
+    out
+}
+
+impl AnnotationStore {
+    /// Verification hook: dump of every reverse index and id map of the store
+    pub fn verif_dump(&self) -> VerifDump {
+        VerifDump {
+            dataset_data_annotation_map: dump3(&self.dataset_data_annotation_map),
+            textrelationmap: dump3(&self.textrelationmap),
+            resource_annotation_metamap: dump2(&self.resource_annotation_metamap),
+            dataset_annotation_metamap: dump2(&self.dataset_annotation_metamap),
+            annotation_annotation_map: dump2b(&self.annotation_annotation_map),
+            key_annotation_metamap: dump3(&self.key_annotation_metamap),
+            data_annotation_metamap: dump3(&self.data_annotation_metamap),
+            annotation_idmap: self.annotation_idmap.verif_entries(),
+            resource_idmap: self.resource_idmap.verif_entries(),
+            dataset_idmap: self.dataset_idmap.verif_entries(),
+            substore_idmap: self.substore_idmap.verif_entries(),
+            resource_substore_map: dump2(&self.resource_substore_map),
+            dataset_substore_map: dump2(&self.dataset_substore_map),
+        }
+    }
+}
